@@ -103,6 +103,10 @@ func runLines(f func(op string, args []string) string) {
 			continue
 		}
 		fmt.Fprintln(w, f(toks[0], toks[1:]))
+		if hangExit { // a call did not return: its goroutine is still spinning, stop here (the runner sees the short stream)
+			w.Flush()
+			os.Exit(3)
+		}
 	}
 }
 
